@@ -223,8 +223,11 @@ def gen_server_script(rng):
         elif r < 0.47:
             t, ns = tns()
             ops.append(['cdisc', t, ns])
-        elif r < 0.50:
+        elif r < 0.485:
             ops.append([rng.choice(['lose', 'lose', 'cclose']), T()])
+        elif r < 0.50:
+            # engine.io's heartbeat task runs for the transport
+            ops.append(['heartbeat', T()])
         elif r < 0.58:
             frames = valid_frames(rng, serializer)
             f = rng.choice(frames)
